@@ -90,3 +90,6 @@ add("C25", "exploration", "bounded-exhaustive enumeration of (write history, gro
 add("C33", "exploration", "bounded-exhaustive enumeration of CSV files with one fault at every (row, field) position x chunk sizes, through the real client load handler and loader",
     "files of 0-3 rows, fault-free or with one of 5 fault kinds at every position; imported through session.(*Client).load (API client bound to the server) and through loader.CSVtoNumpyMulti with chunk sizes 1,2,3,1000; header row and column-name-map variants; success without every row in the bucket is a violation",
     TB + "; export hook VerifLoad", "seqmc")
+add("C19", "exploration", "bounded-exhaustive enumeration of WHERE atoms and their ordered conjunctions through the real SQL pipeline against a reference filter",
+    "~195 atoms per fixture (3 columns x 5 operators x 6 bound positions, Epoch bounds in 3 encodings, BETWEEN over bound pairs) on a fixed 1Min and a variable 1H bucket; every atom alone and every ordered conjunction with a representative second atom (thorough: EVERY ordered pair, ~76000 statements) through BuildQueryTree -> Materialize; expected = stored rows filtered by the statement's semantics (BETWEEN strict)",
+    TB + "; UTC", "seqmc")
